@@ -6,7 +6,7 @@
 From Coq Require Import List ZArith Bool Arith Lia.
 From SC Require Import Base.Res Base.PyList Inst.Heap Inst.ClassTable Inst.Model Inst.Canon
   Inst.Abs Inst.SpecHelpers Inst.ElemProofs Inst.Framed Inst.RefineProofs Inst.CopyProofs Inst.ElemRefineDep Inst.ElemRefine
-  Inst.ElemRefine2 Inst.ElemRefine3 Inst.ElemRefine4 Inst.ElemRefine5 Inst.ElemRefine6 Inst.ElemRefine7 Inst.ElemRefine8 Inst.ElemRefine9 Inst.ElemRefine10 Inst.ElemRefine11 Inst.ElemRefine12 Inst.ElemRefine13 Inst.ElemRefine14.
+  Inst.ElemRefine2 Inst.ElemRefine3 Inst.ElemRefine4 Inst.ElemRefine5 Inst.ElemRefine6 Inst.ElemRefine7 Inst.ElemRefine8 Inst.ElemRefine9 Inst.ElemRefine10 Inst.ElemRefine11 Inst.ElemRefine12 Inst.ElemRefine13 Inst.ElemRefine14 Inst.ElemRefine15.
 Import ListNotations.
 Open Scope nat_scope.
 
@@ -1469,6 +1469,218 @@ Section GuardedNestedPrep.
              Hty P2 ltac:(dep) Glc Go Hv (set_prep_ok_facts ct s l a sp xs v Hsp (list_of_set s l a xs Hob) Hok)).
   Qed.
 End GuardedNestedPrep.
+
+(* ------------------------------------------------------------------ *)
+(** * Histories: the guard holds again after a successful in-place call *)
+
+Lemma kind_ok_same kd t o o' : obj_kind o' = obj_kind o -> kind_ok kd t o' = kind_ok kd t o.
+Proof. destruct o, o'; cbn [obj_kind]; intro E; try discriminate E; reflexivity. Qed.
+
+Lemma flat_fieldsb_rewritten h lc o' d :
+  scalar_obj o' = true -> flat_fieldsb h d = true -> flat_fieldsb (set_nth lc o' h) d = true.
+Proof.
+  intros Hsc. unfold flat_fieldsb. rewrite !forallb_forall. intros H p Hp. specialize (H p Hp).
+  destruct (snd p) as [| | | | | | | |lx]; auto. cbn [flat_valb] in *.
+  destruct (Nat.eq_dec lc lx) as [->|Hne].
+  - destruct (nth_error h lx) eqn:E; [|discriminate].
+    rewrite nth_error_set_nth_same by (apply nth_error_Some; congruence). exact Hsc.
+  - now rewrite set_nth_other by auto.
+Qed.
+
+Lemma elem_guard_kept ct s s' l a kd lc o :
+  elem_guard ct s l a kd = true -> attr_cell s l a = Some lc -> attr_obj s l a = Some o ->
+  cell_rewritten s s' lc o -> elem_guard ct s' l a kd = true.
+Proof.
+  intros G Hcell Hobj [o' [Hh [Hsc Hkd]]].
+  unfold attr_obj in Hobj. rewrite Hcell in Hobj.
+  unfold elem_guard, attr_cell in *. rewrite Hh.
+  destruct (nth_error (heap s) l) as [[| | |c d]|] eqn:El; try discriminate.
+  destruct (lookup_cls ct c) as [k|] eqn:Ec; try discriminate.
+  destruct (lookup_attr k a) as [sp|] eqn:Ea; try discriminate.
+  destruct (assoc a d) as [[| | | | | | | |lc0]|] eqn:Ef; try discriminate.
+  inversion Hcell; subst lc0. rewrite Hobj in G.
+  assert (Hne : lc <> l).
+  { intro E. subst lc. rewrite El in Hobj. inversion Hobj; subst o.
+    repeat (apply andb_true_iff in G; destruct G as [G ?]). discriminate. }
+  rewrite (set_nth_other lc l o' (heap s) Hne), El, Ec, Ea, Ef.
+  rewrite nth_error_set_nth_same by (apply nth_error_Some; congruence).
+  apply andb_true_iff in G. destruct G as [G Hkind].
+  apply andb_true_iff in G. destruct G as [G Hsco].
+  apply andb_true_iff in G. destruct G as [G Hush].
+  apply andb_true_iff in G. destruct G as [G Hflat].
+  rewrite G, Hush, Hsc, (kind_ok_same kd (a_ty sp) o o' Hkd), Hkind.
+  rewrite (flat_fieldsb_rewritten (heap s) lc o' d Hsc Hflat). reflexivity.
+Qed.
+
+(* after the call: the guard holds again (success), or nothing happened to the heap (error) *)
+Definition guard_kept (ct : ctable) (s : state) (l : loc) (a : aid) (kd : ckind) (hp : helper) (h : hargs) : Prop :=
+  match run_helper ct l hp h s with
+  | (Ok _, s') => elem_guard ct s' l a kd = true
+  | (Err _, s') => heap s' = heap s
+  end.
+
+Section GuardedKeeps.
+  Variable ct : ctable.
+  Variable s : state.
+  Variables (l : loc) (a : aid).
+
+  Lemma keeps_to_guard kd hp h lc o :
+    elem_guard ct s l a kd = true -> attr_cell s l a = Some lc -> attr_obj s l a = Some o ->
+    keeps_cell ct s l hp h lc o -> guard_kept ct s l a kd hp h.
+  Proof.
+    intros G Hc Ho K. unfold keeps_cell in K. unfold guard_kept.
+    destruct (run_helper ct l hp h s) as [[r|e] s']; auto.
+    exact (elem_guard_kept ct s s' l a kd lc o G Hc Ho K).
+  Qed.
+
+  Ltac ipfacts kd H :=
+    destruct (elem_guard_sound ct s l a kd H) as [c [d [k [sp [lc [o [G [Hk [Hsp Hob]]]]]]]]];
+    destruct G as [Gl Gc Ga Gd Gfz Gni Gdep Gfld Glc Go Gflat Gsh];
+    assert (Hcell : attr_cell s l a = Some lc) by (unfold attr_cell; now rewrite Gl, Gfld).
+  Ltac lshape Hty Hk :=
+    match goal with sp : attr_spec, o : obj |- _ =>
+      destruct (a_ty sp) as [| | | | | | |ity| |ity'|] eqn:Hty; try discriminate Hk;
+      destruct o as [xs| | |]; try discriminate Hk end.
+  Ltac dshape Hty Hk :=
+    match goal with sp : attr_spec, o : obj |- _ =>
+      destruct (a_ty sp) as [| | | | | | | |tk tv| |] eqn:Hty; try discriminate Hk;
+      destruct o as [|kvs| |]; try discriminate Hk end.
+  Ltac sshape Hty Hk :=
+    match goal with sp : attr_spec, o : obj |- _ =>
+      destruct (a_ty sp) as [| | | | | | |ity'| |ity|] eqn:Hty; try discriminate Hk;
+      destruct o as [| |xs|]; try discriminate Hk end.
+  Ltac dep := cbn [ty_depth] in *; lia.
+
+  (* ---- lists ---- *)
+  Theorem with_item_list_keeps_guard idx v ins :
+    elem_guard ct s l a KList = true -> plain_items ct s l a = true ->
+    vscalar v = true -> (idx = VMissing \/ exists i, idx = VInt i) ->
+    guard_kept ct s l a KList (HWithItem a) (mkh [v] true true idx ins None None [] None).
+  Proof.
+    intros H Hp Hv Hi. pose proof H as H0. ipfacts KList H. destruct (plain_items_facts ct s l a sp Hsp Hp) as [P1 P2].
+    lshape Hty Hk. cbn [item_type] in P2.
+    apply (keeps_to_guard KList _ _ lc (OList xs) H0 Hcell Hob).
+    exact (with_item_list_keeps ct l a c d k sp s lc Gl Gc Ga Gd Gfz Gni Gfld Gsh xs ity Hty ltac:(dep) Glc idx v ins Go P1 P2 Hv Hi).
+  Qed.
+
+  Theorem without_item_list_keeps_guard voi bi :
+    elem_guard ct s l a KList = true -> nonref voi = true ->
+    guard_kept ct s l a KList (HWithoutItem a) (mkh [voi] true true VMissing false bi None [] None).
+  Proof.
+    intros H Hv. pose proof H as H0. ipfacts KList H. lshape Hty Hk.
+    apply (keeps_to_guard KList _ _ lc (OList xs) H0 Hcell Hob).
+    exact (without_item_list_keeps ct l a c d k sp s lc Gl Gc Ga Gd Gfz Gni Gfld Gsh xs ity Hty ltac:(dep) Glc voi bi Go Hv).
+  Qed.
+
+  Theorem transform_item_list_keeps_guard voi fo bi :
+    elem_guard ct s l a KList = true -> proper_elems s l a = true -> fail_at s = None ->
+    nonref voi = true -> is_missing voi = false -> fo_ok fo -> by_value_ok ct s l a voi bi = true ->
+    guard_kept ct s l a KList (HTransformItem a) (mkh [voi] true true VMissing false bi None [] fo).
+  Proof.
+    intros H Hpe Hfa Hv Hm Hfo Hbv. pose proof H as H0. ipfacts KList H. lshape Hty Hk.
+    unfold proper_elems in Hpe. rewrite (list_of_list s l a xs Hob) in Hpe.
+    apply (keeps_to_guard KList _ _ lc (OList xs) H0 Hcell Hob).
+    exact (transform_item_list_keeps ct l a c d k sp s lc Gl Gc Ga Gd Gfz Gni Gfld Gsh xs ity Hty ltac:(dep) Glc voi fo bi Hpe Hv Hm Hfa Hfo
+             (by_value_ok_facts ct s l a sp ity xs voi bi Hsp Hty (list_of_list s l a xs Hob) Hbv)).
+  Qed.
+
+  Theorem update_item_list_keeps_guard voi v bi :
+    elem_guard ct s l a KList = true -> proper_elems s l a = true -> plain_items ct s l a = true ->
+    nonref voi = true -> is_missing voi = false -> nonref v = true ->
+    vscalar v || by_value_ok ct s l a voi bi = true ->
+    guard_kept ct s l a KList (HUpdateItem a) (mkh [voi; v] true true VMissing false bi None [] None).
+  Proof.
+    intros H Hpe Hp Hv Hm Hnv Hbv. pose proof H as H0. ipfacts KList H.
+    destruct (plain_items_facts ct s l a sp Hsp Hp) as [P1 P2]. lshape Hty Hk. cbn [item_type] in P2.
+    unfold proper_elems in Hpe. rewrite (list_of_list s l a xs Hob) in Hpe.
+    apply (keeps_to_guard KList _ _ lc (OList xs) H0 Hcell Hob).
+    refine (update_item_list_keeps ct l a c d k sp s lc Gl Gc Ga Gd Gfz Gni Gfld Gsh xs ity Hty ltac:(dep) Glc voi v bi Hpe P1 P2 Hv Hm Hnv _).
+    intros Hsv Hb. rewrite Hsv in Hbv. cbn [orb] in Hbv.
+    exact (by_value_ok_facts ct s l a sp ity xs voi bi Hsp Hty (list_of_list s l a xs Hob) Hbv Hb).
+  Qed.
+
+  (* ---- dicts ---- *)
+  Theorem with_item_dict_keeps_guard key v :
+    elem_guard ct s l a KDict = true -> plain_items ct s l a = true -> nonref key = true -> vscalar v = true ->
+    guard_kept ct s l a KDict (HWithItem a) (mkh [key; v] true true VMissing false None None [] None).
+  Proof.
+    intros H Hp Hkey Hv. pose proof H as H0. ipfacts KDict H.
+    destruct (plain_items_facts ct s l a sp Hsp Hp) as [P1 P2]. dshape Hty Hk. cbn [item_type] in P2.
+    apply (keeps_to_guard KDict _ _ lc (ODict kvs) H0 Hcell Hob).
+    exact (with_item_dict_keeps ct l a c d k sp s lc Gl Gc Ga Gd Gfz Gni Gfld Gsh kvs tk tv Hty ltac:(dep) ltac:(dep) Glc Go key v P1 P2 Hkey Hv).
+  Qed.
+
+  Theorem without_item_dict_keeps_guard key :
+    elem_guard ct s l a KDict = true -> nonref key = true ->
+    guard_kept ct s l a KDict (HWithoutItem a) (mkh [key] true true VMissing false None None [] None).
+  Proof.
+    intros H Hkey. pose proof H as H0. ipfacts KDict H. dshape Hty Hk.
+    apply (keeps_to_guard KDict _ _ lc (ODict kvs) H0 Hcell Hob).
+    exact (without_item_dict_keeps ct l a c d k sp s lc Gl Gc Ga Gd Gfz Gni Gfld Gsh kvs tk tv Hty Glc Go key Hkey).
+  Qed.
+
+  Theorem transform_item_dict_keeps_guard key fo bi :
+    elem_guard ct s l a KDict = true -> dict_vals_proper s l a = true -> fail_at s = None ->
+    nonref key = true -> fo_ok fo ->
+    guard_kept ct s l a KDict (HTransformItem a) (mkh [key] true true VMissing false bi None [] fo).
+  Proof.
+    intros H Hvp Hfa Hkey Hfo. pose proof H as H0. ipfacts KDict H. dshape Hty Hk.
+    apply (keeps_to_guard KDict _ _ lc (ODict kvs) H0 Hcell Hob).
+    exact (transform_item_dict_keeps ct l a c d k sp s lc Gl Gc Ga Gd Gfz Gni Gfld Gsh kvs tk tv Hty ltac:(dep) ltac:(dep) Glc Go
+             key fo bi (dvp_facts s l a kvs Hob Hvp) Hkey Hfa Hfo).
+  Qed.
+
+  Theorem update_item_dict_keeps_guard key v :
+    elem_guard ct s l a KDict = true -> dict_vals_proper s l a = true -> plain_items ct s l a = true ->
+    nonref key = true -> nonref v = true ->
+    guard_kept ct s l a KDict (HUpdateItem a) (mkh [key; v] true true VMissing false None None [] None).
+  Proof.
+    intros H Hvp Hp Hkey Hnv. pose proof H as H0. ipfacts KDict H.
+    destruct (plain_items_facts ct s l a sp Hsp Hp) as [P1 P2]. dshape Hty Hk. cbn [item_type] in P2.
+    apply (keeps_to_guard KDict _ _ lc (ODict kvs) H0 Hcell Hob).
+    exact (update_item_dict_keeps ct l a c d k sp s lc Gl Gc Ga Gd Gfz Gni Gfld Gsh kvs tk tv Hty ltac:(dep) ltac:(dep) Glc Go
+             key v (dvp_facts s l a kvs Hob Hvp) P1 P2 Hkey Hnv).
+  Qed.
+
+  (* ---- sets ---- *)
+  Theorem with_item_set_keeps_guard v :
+    elem_guard ct s l a KSet = true -> plain_items ct s l a = true -> vscalar v = true ->
+    guard_kept ct s l a KSet (HWithItem a) (mkh [v] true true VMissing false None None [] None).
+  Proof.
+    intros H Hp Hv. pose proof H as H0. ipfacts KSet H.
+    destruct (plain_items_facts ct s l a sp Hsp Hp) as [P1 P2]. sshape Hty Hk. cbn [item_type] in P2.
+    apply (keeps_to_guard KSet _ _ lc (OSet xs) H0 Hcell Hob).
+    exact (with_item_set_keeps ct l a c d k sp s lc Gl Gc Ga Gd Gfz Gni Gfld Gsh xs ity Hty ltac:(dep) Glc Go v P1 P2 Hv).
+  Qed.
+
+  Theorem without_item_set_keeps_guard voi :
+    elem_guard ct s l a KSet = true -> nonref voi = true ->
+    guard_kept ct s l a KSet (HWithoutItem a) (mkh [voi] true true VMissing false None None [] None).
+  Proof.
+    intros H Hv. pose proof H as H0. ipfacts KSet H. sshape Hty Hk.
+    apply (keeps_to_guard KSet _ _ lc (OSet xs) H0 Hcell Hob).
+    exact (without_item_set_keeps ct l a c d k sp s lc Gl Gc Ga Gd Gfz Gni Gfld Gsh xs ity Hty Glc Go voi Hv).
+  Qed.
+
+  Theorem transform_item_set_keeps_guard voi fo bi :
+    elem_guard ct s l a KSet = true -> fail_at s = None -> vscalar voi = true -> fo_ok fo ->
+    guard_kept ct s l a KSet (HTransformItem a) (mkh [voi] true true VMissing false bi None [] fo).
+  Proof.
+    intros H Hfa Hv Hfo. pose proof H as H0. ipfacts KSet H. sshape Hty Hk.
+    apply (keeps_to_guard KSet _ _ lc (OSet xs) H0 Hcell Hob).
+    exact (transform_item_set_keeps ct l a c d k sp s lc Gl Gc Ga Gd Gfz Gni Gfld Gsh xs ity Hty ltac:(dep) Glc Go voi fo bi Hv Hfa Hfo).
+  Qed.
+
+  Theorem update_item_set_keeps_guard voi v :
+    elem_guard ct s l a KSet = true -> plain_items ct s l a = true -> vscalar voi = true -> nonref v = true ->
+    guard_kept ct s l a KSet (HUpdateItem a) (mkh [voi; v] true true VMissing false None None [] None).
+  Proof.
+    intros H Hp Hv Hnv. pose proof H as H0. ipfacts KSet H.
+    destruct (plain_items_facts ct s l a sp Hsp Hp) as [P1 P2]. sshape Hty Hk. cbn [item_type] in P2.
+    apply (keeps_to_guard KSet _ _ lc (OSet xs) H0 Hcell Hob).
+    exact (update_item_set_keeps ct l a c d k sp s lc Gl Gc Ga Gd Gfz Gni Gfld Gsh xs ity Hty ltac:(dep) Glc Go voi v P1 P2 Hv Hnv).
+  Qed.
+End GuardedKeeps.
 
 (* ------------------------------------------------------------------ *)
 (** * A concrete class and receiver: xs : List[int], m : Dict[str, int], t : Set[int] *)
